@@ -33,6 +33,8 @@ pub struct VerifProbe {
     pub has_prev_path: bool,
     /// Current probe timeout of the application data space (the largest of the three spaces)
     pub pto: std::time::Duration,
+    /// The same probe timeout computed from the retained previous path's RTT estimate
+    pub prev_path_pto: Option<std::time::Duration>,
     /// Deadline of every timer, in `Timer` order (LossDetection, Idle, Close, KeyDiscard,
     /// PathValidation, KeepAlive, Pacing, PushNewCid, MaxAckDelay)
     pub timers: [Option<std::time::Instant>; 9],
@@ -79,6 +81,9 @@ impl Connection {
             path_total_recvd: self.path.total_recvd,
             has_prev_path: self.prev_path.is_some(),
             pto: self.pto(SpaceId::Data),
+            prev_path_pto: self.prev_path.as_ref().map(|(_, path)| {
+                path.rtt.pto_base() + self.ack_frequency.max_ack_delay_for_pto()
+            }),
             timers: super::timer::Timer::VALUES.map(|t| self.timers.get(t)),
         }
     }
